@@ -55,6 +55,9 @@ def bounds(tier):
 
 def cue_lists(k):
     pts = [1000 * (i + 1) + 37 * i for i in range(k)]  # not multiples of one another; ms
+    pts[-1] += 9000  # the last point has one digit more than the others (millisecond counts of 4 and 5 digits)
+    if k >= 5:
+        pts[-2] += 9000
     out = []
     for a, b in itertools.combinations(range(k), 2):
         out.append(((pts[a], pts[b]),))
@@ -81,12 +84,19 @@ def build(assign):
         cs.set_styles({"narrator": {"text-align": "center", "text-decoration": "underline", "font-style": "italic", "color": "red"}})
     if VARIANT == "adjusted":
         cs.adjust_caption_timing(offset=0, rate_skew=1)
+    if VARIANT == "last-language-empty":
+        from pycaption import CaptionList as _CL
+
+        cs.set_captions(lang_codes()[len(assign) - 1], _CL())
     return cs
 
 
 def model(assign):
     L = lang_codes()
-    return {L[li]: [(s, e, f"{L[li][:2]}{ci}") for ci, (s, e) in enumerate(cues)] for li, cues in enumerate(assign)}
+    m = {L[li]: [(s, e, f"{L[li][:2]}{ci}") for ci, (s, e) in enumerate(cues)] for li, cues in enumerate(assign)}
+    if VARIANT == "last-language-empty":
+        m[L[len(assign) - 1]] = []
+    return m
 
 
 def real_lists(cs):
@@ -182,6 +192,10 @@ def eval_dfxp(assign, force=None, writer="DFXPWriter"):
         v_, out_ = [], None
         got_divs = [(d["lang"], [(p["start"], p["end"], parsers.norm_line(" ".join(p["lines"]))) for p in d["ps"]]) for d in t["divs"]]
         want_divs = [(l, m[l]) for l in exp_langs]
+        if VARIANT == "last-language-empty":
+            # a language without captions may or may not get a <div>; if it does, the div holds no cue
+            got_divs = [g for g in got_divs if g[1] or g[0] not in m or m[g[0]]]
+            want_divs = [w_ for w_ in want_divs if w_[1]]
         if got_divs != want_divs:
             v_.append((f"dfxp-write/divs-differ/force:{force}/{writer}", {"got": got_divs, "want": want_divs}))
         return v_, tuple(l for l, _ in got_divs)
@@ -319,7 +333,7 @@ def shards(tier, seed):
         sh.append({"k": "docs", "_env": env})
         sh.append({"k": "docs", "_env": dict(env, PYCAPTION_DEFAULT_LANG="xx")})
         if full:
-            for variant in ("short-codes+styles", "adjusted"):
+            for variant in ("short-codes+styles", "adjusted", "last-language-empty"):
                 for nl in (2, 3, 4):
                     for p in range(2):
                         sh.append({"k": "sets", "nl": nl, "lat": b["lattice_points"][nl], "part": p, "nparts": 2, "stride": 7 if tier == "quick" else 2, "variant": variant, "_env": env})
@@ -339,6 +353,14 @@ def run_shard(d):
         prev_assign = None
         for i, assign in enumerate(assignments(d["nl"], d["lat"])):
             if i % d["nparts"] != d["part"] or (i // d["nparts"]) % d["stride"]:
+                continue
+            if VARIANT == "last-language-empty":
+                # only the writers that merge concurrent captions are judged here (no force: the last language is the empty one)
+                for wr in ("SinglePositioningDFXPWriter", "LegacyDFXPWriter"):
+                    v, out = eval_dfxp(assign, None, wr)
+                    acc.case(("dfxp-" + wr, assign, VARIANT), True, out, {"route": wr, "cues_ms_per_language": assign, "variant": VARIANT})
+                    for kind, det in v:
+                        acc.violation(f"C14/{kind}/langs{d['nl']}{vx}", {"k": "dfxp", "force": None, "writer": wr, "assign": assign, "variant": VARIANT, "_env": d["_env"]}, det)
                 continue
             # the same writer object used for one set after the other must write what a fresh writer writes
             for name, cls in (("sami", pycaption.SAMIWriter), ("dfxp", pycaption.DFXPWriter)):
